@@ -112,7 +112,7 @@ Definition model_run (op : opk) (args : list value) : list res :=
       match args with
       | [s; n] =>
           let r := fn_truncate s n (VBytes []) in
-          [r; lenr r; match r with RErr => RErr | _ => on_bytes s (fun b => ROk (VInt (strlen b))) end]
+          [r; lenr r; on_bytes s (fun b => ROk (VInt (strlen b)))]
       | [s; n; x] =>
           let r := fn_truncate s n x in
           [r; lenr r; on_bytes s (fun b => ROk (VInt (strlen b))); on_bytes x (fun b => ROk (VInt (strlen b)))]
